@@ -14,7 +14,8 @@ RULE = ("a deterministic scheduler (threading.settrace + condition variable) dri
         "bound) plus seeded random schedules; each trial uses a key never built before in the process.  distinct = hash "
         "of the (thread, function, line) trace; non-trivial = at least one preemption inside a traced window"
         " Plus declarations racing anonymous construction (name/symbol registries checked), refused declarations, two different base units declared side by side (all products of them are one object afterwards), and spellings stored before a later Dimension.define."
-        " The functions to stop in are the listed ones plus whatever else of the same classes (and module-level helpers) one plain evaluation of the expression enters today (call-graph discovery).")
+        " The functions to stop in are the listed ones plus whatever else of the same classes (and module-level helpers) one plain evaluation of the expression enters today (call-graph discovery)."
+        " Units whose factors cancelled under a surviving prefix are raced; the free-running stress continues in a process that has formed 12 000 products.")
 ASSUMPTIONS = [
     "line-granularity preemption is a subset of what CPython can do (the GIL can be dropped between any two "
     "bytecodes), so every observed violation is a real schedule; a single dict.setdefault call is atomic under the GIL",
